@@ -368,7 +368,15 @@ pub fn parse(words: &[&str]) -> Case {
     p.expect("E");
     let sources = p.list(|p| p.list(|p| p.conn()));
     p.expect("K");
-    let clock = p.list(|p| p.opt_i());
+    // -1 = Synchronized, -2 = Synchronized + probe request (see ScriptClock), n >= 0 = OutOfSync(n)
+    let clock = p.list(|p| {
+        let i = p.int();
+        if i == -1 {
+            None
+        } else {
+            Some(i)
+        }
+    });
     p.expect("I");
     let _ = p.list(|p| p.int());
     p.expect("C");
@@ -674,6 +682,8 @@ struct ScriptClock {
     answers: Vec<Option<i64>>,
     pos: usize,
     log: Log,
+    /// filled after init: lets the clock act as a concurrent user of the scheduler handle
+    probe: Arc<Mutex<Option<(Scheduler, Address<SM>)>>>,
 }
 impl Clock for ScriptClock {
     fn synchronize(&mut self, deadline: MonotonicTime) -> SyncStatus {
@@ -683,6 +693,18 @@ impl Clock for ScriptClock {
             .push(format!("K:{}", ns(deadline)));
         let a = self.answers.get(self.pos).copied().flatten();
         self.pos += 1;
+        if a == Some(-2) {
+            // probe (answer: Synchronized): while the step to `deadline` waits for the clock, a request
+            // for an event AT `deadline` must be refused (its time is not in the future of the step in
+            // progress) and the published time must already be `deadline`
+            if let Some((sched, addr)) = self.probe.lock().unwrap().as_ref() {
+                let r = sched.schedule_event(deadline, SM::in0, -777, addr);
+                let code = sched_code(&r);
+                let teq = if sched.time() == deadline { 1 } else { 0 };
+                self.log.lock().unwrap().push(format!("Z:{}:{}", code, teq));
+            }
+            return SyncStatus::Synchronized;
+        }
         match a {
             None => SyncStatus::Synchronized,
             Some(lag) => SyncStatus::OutOfSync(Duration::from_nanos(lag as u64)),
@@ -935,10 +957,12 @@ fn run_inner(case: &Case) -> String {
             }
         }
     }
+    let probe: Arc<Mutex<Option<(Scheduler, Address<SM>)>>> = Arc::new(Mutex::new(None));
     let mut init = SimInit::with_num_threads(case.threads).set_clock(ScriptClock {
         answers: case.clock.clone(),
         pos: 0,
         log: log.clone(),
+        probe: probe.clone(),
     });
     if let Some(t) = case.tol {
         init = init.set_clock_tolerance(Duration::from_nanos(t as u64));
@@ -968,6 +992,9 @@ fn run_inner(case: &Case) -> String {
             return out.join(" | ");
         }
     };
+    if n > 0 && case.models[0].parent.is_none() && case.models[0].place == 0 {
+        *probe.lock().unwrap() = Some((sched.clone(), addrs[0].clone()));
+    }
     let mut dkeys: Vec<Option<ActionKey>> = (0..8).map(|_| None).collect();
     for c in &case.cmds {
         let r: String = match c {
@@ -1150,6 +1177,7 @@ fn run_inner(case: &Case) -> String {
     }
     // the simulation goes first: dropping a never-added mailbox while a sender task is still blocked
     // on it would wake that task from outside the executor (which panics by design)
+    *probe.lock().unwrap() = None;
     drop(simu);
     drop(sched);
     // every model that was added (sub-models included) must have been dropped exactly once by now;
